@@ -736,8 +736,14 @@ cache_alloc(unsigned n, size_t size)
 {
 	struct cache *cache;
 
+	/* Neither the entry array nor the data array may overflow size_t. */
+	if (n > (SIZE_MAX - sizeof(struct cache)) /
+	    (2 * sizeof(struct cache_entry)) ||
+	    (n && size > SIZE_MAX / n))
+		return NULL;
+
 	cache = malloc(sizeof(struct cache) +
-		       2 * n * sizeof(struct cache_entry));
+		       2 * (size_t)n * sizeof(struct cache_entry));
 	if (!cache)
 		return cache;
 
